@@ -399,6 +399,11 @@ def main():
     except CheckError as e:
         log(f"CHECK-ERROR: property={prop} {e}")
         sys.exit(2)
+    except Exception as e:  # noqa: BLE001 - a defect of the machinery (generator, emitter): never a verdict about the library
+        import traceback
+        traceback.print_exc()
+        log(f"CHECK-ERROR: property={prop} internal error of the checking machinery: {type(e).__name__}: {e}")
+        sys.exit(2)
     sys.exit(rc)
 
 
